@@ -306,6 +306,8 @@ func runC08(r *Run) {
 		}
 		r.Check("checkAuditPath:accepts", okTrue, r.FnPos(fn), "returns true after the loop")
 	}
+
+	r.NilArgsRule("C08.R8", "trillian/ctfe", "trillian/util")
 }
 
 type edgeRow struct {
